@@ -32,7 +32,7 @@ _tab = {}
 def running_rows(year, g):
     key = (year, g)
     if key not in _tab:
-        with open(os.path.join(REPO, 'athlib', 'wma', 'wma-data-%s.json' % year)) as f:
+        with open(os.path.join(REPO, 'athlib', 'wma', 'wma-data-%s.json' % year), encoding='utf-8') as f:
             d = json.load(f)
         rows = d[g]
         start = [r[0] for r in rows].index('50')
